@@ -12,8 +12,8 @@ THEOREMS = ['swap_identity', 'complete_of_swap', 'liou_real', 'liou_one', 'liou_
             'expand_inverse', 'liouville_entries', 'liouville_castReal', 'choi_entries',
             'choi_of_unitary', 'choi_of_unitary_quadForm', 'choi_of_unitary_posSemidef',
             'transpose_choi_entries', 'transpose_not_cp', 'cp_verdict_of_nonneg',
-            'cp_verdict_false_of_neg', 'superop_source_shape']
-PINS = ['pinGgmExpand']
+            'cp_verdict_false_of_neg']
+PINS = ['pinGgmExpand', 'C15_superop_source_shape']
 GEN_SITES = ['einsum:superoperator_liouville_representation_0',
              'einsum:superoperator_liouville_to_choi_0', 'const:superoperator']
 COMPONENTS = ['liouville', 'choi']
@@ -153,6 +153,49 @@ def check_pulse_liouville(ctx, case):
     if not np.max(np.abs(L - ref)) <= 1e-9:
         ctx.fail('pulse_liouville', case, float(np.max(np.abs(L - ref))), 0, {},
                  'total_propagator_liouville differs from L(total_propagator)')
+        return
+    # pulses produced by composition cache (or recompute) the Liouville total propagator themselves:
+    # concatenation with reuse of the atomic control matrices, nested concatenation, periodic
+    # repetition, extension, remapping
+    rng = np.random.default_rng(int(case.get('seed', 0)))
+    om = np.linspace(0.1, 4, 5)
+    d2 = gens.rand_desc(rng, d=desc['d'], n_dt=int(rng.integers(1, 3)), basis=desc['basis'],
+                        features=['const_sens'])
+    d1 = dict(desc)
+    d1['n_coeffs'] = np.repeat(np.asarray(desc['n_coeffs'])[:, :1], len(desc['dt']), axis=1)
+    d2['n_opers'], d2['n_ids'] = d1['n_opers'], d1['n_ids']
+    d2['n_coeffs'] = np.repeat(np.asarray(d1['n_coeffs'])[:, :1], len(d2['dt']), axis=1)
+
+    def both(cache):
+        a, b = gens.build(d1), gens.build(d2)
+        if cache:
+            a.cache_filter_function(om)
+            b.cache_filter_function(om)
+        return a, b
+    comps = []
+    try:
+        a, b = both(True)
+        c = ff.concatenate([a, b])
+        comps.append(('concatenate (cached inputs)', c))
+        comps.append(('nested concatenate', ff.concatenate([c, gens.build(d1)], omega=om)))
+        a, b = both(False)
+        comps.append(('concatenate (omega given)', ff.concatenate([a, b], omega=om)))
+        comps.append(('concatenate (plain)', ff.concatenate(both(False))))
+        a, _ = both(True)
+        comps.append(('concatenate_periodic', ff.concatenate_periodic(a, 3)))
+    except ValueError:
+        pass
+    for what, c in comps:
+        Lc = c.total_propagator_liouville
+        Qc = c.total_propagator
+        Cc = np.array(c.basis)
+        refc = np.einsum('iab,bc,jcd,ad->ij', Cc, Qc, Cc, Qc.conj())
+        ctx.count(('plc', what, desc['d'], int(case.get('seed', 0))))
+        if not np.max(np.abs(Lc - refc)) <= 1e-9:
+            ctx.fail('pulse_liouville', case, float(np.max(np.abs(Lc - refc))), 0, {},
+                     f'{what}: total_propagator_liouville differs from L(total_propagator) by '
+                     f'{np.max(np.abs(Lc - refc)):.3g}')
+            return
 
 
 CHECKS = {'liouville_algebra': check_liouville, 'cp_verdicts': check_cp,
@@ -186,6 +229,7 @@ def search(ctx, deep=False):
             check_cp(ctx, {'seed': int(rng.integers(0, 2**31)), 'd': dd,
                            'basis': 'pauli' if dd in (2, 4) and rng.random() < 0.5 else 'ggm'})
         if i % 3 == 1:
-            check_pulse_liouville(ctx, {'desc': gens.rand_desc(rng, features=gens.rand_features(rng))})
+            check_pulse_liouville(ctx, {'desc': gens.rand_desc(rng, features=gens.rand_features(rng)),
+                                        'seed': int(rng.integers(0, 2**31))})
         if i < 2:
             ctx.sample({'d': d, 'btype': cs['btype']})
